@@ -3,6 +3,11 @@ From Coq Require Import List NArith ZArith Lia Bool ZifyBool.
 Import ListNotations.
 Require Import ConnIO Laws C01Proofs C01Report C17Proofs.
 
+(* [merges ts l]: l is an interleaving of the lists ts (each keeps its own order) *)
+Inductive merges {T : Type} : list (list T) -> list T -> Prop :=
+| merges_nil ts : Forall (fun l => l = []) ts -> merges ts []
+| merges_step ts1 x l ts2 rest : merges (ts1 ++ l :: ts2) rest -> merges (ts1 ++ (x :: l) :: ts2) (x :: rest).
+
 Section Final.
 Context {A B : Type} {O : BOps B} {G : Cfg B}.
 Variable den : B -> list A.
@@ -186,6 +191,23 @@ Lemma budget_available c b ks : reachable c -> closed c = false -> wlist c = [] 
 Proof.
   intros R Hc Hl Hb He. destruct (write_overflow c b ks R Hc) as [H _].
   apply H in He. rewrite (budget_restored c R Hc Hl) in He. lia.
+Qed.
+
+(* ---- concurrent callers ----
+   Each of Write / Writev / Sendfile / flush / Close runs in ONE critical section of Conn.mux (checked on the real code by
+   the concurrent tier of the harness under the cooperative scheduler), so an execution with several goroutines is a
+   run of the model over some merge of their programs. *)
+Lemma stream_merge ts ops : merges ts ops ->
+  let s := fst (run conn0 ops) in
+  closed s = false -> den (wire s) ++ pending s = accepted conn0 ops.
+Proof. intros _. exact (stream ops). Qed.
+
+Lemma bound_merge ts ops : merges ts ops -> (0 < maxbuf)%Z ->
+  let s := fst (run conn0 ops) in
+  (0 <= left s <= maxbuf)%Z /\ (closed s = false -> left s = backlog (wlist s)).
+Proof.
+  intros _ Hm. cbn zeta. assert (R : reachable (fst (run conn0 ops))) by now exists ops.
+  split; [now apply bound|now apply left_exact].
 Qed.
 
 End Final.
